@@ -2,6 +2,8 @@
 
 package PKG
 
+import "context"
+
 // Engine-provided primitives: bodiless declarations, intercepted by gosym (never linked).
 // The native twin of this file (prims_native.go) implements them over a concrete model so that the same
 // harness runs against the real build for witness / counterexample replay.
@@ -26,4 +28,5 @@ func verifNote(s string)                                         // free-text de
 func verifRow(prefix string, kind int, depth uint, text string) string // abstract Markdown row
 func verifRegister(name string, f func())                        // entry registry (used by the native replay only)
 func verifFSCalls() []string                                     // byte-level FS recorder: paths handed to mutating os calls so far
+func verifCtx(k uint) context.Context                            // context cancelled at synchronisation event k of the run (0: already cancelled; >= 100000: never)
 func verifQuiesce() int                                          // lets all goroutines run; returns how many are left
